@@ -32,12 +32,14 @@ Inductive rc :=
 | RMapEv (k : nat) (a : rc).
 
 (* outputs of a step; an effect carries the id under which the shell can answer it *)
-Record reff := mkRE { re_tag : nat; re_val : nat; re_maps : list nat; re_rid : nat; re_kind : nat (* 0 never 1 once 2 many *) }.
+Record reff := mkRE { re_tag : nat; re_val : nat; re_maps : list nat; re_rid : nat; re_kind : nat (* 0 never 1 once 2 many 3 once, asked through a capability *) }.
 Record routs := mkRO { ro_effs : list reff; ro_evs : list event }.
 Definition ro0 := mkRO [] [].
 Definition ro_app (a b : routs) := mkRO (ro_effs a ++ ro_effs b) (ro_evs a ++ ro_evs b).
 Definition ro_map_eff k (o : routs) :=
-  if Nat.eqb k 0 then o else mkRO (map (fun e => mkRE (re_tag e) (re_val e) (k :: re_maps e) (re_rid e) (re_kind e)) (ro_effs o)) (ro_evs o).
+  if Nat.eqb k 0 then o else
+  (* a request made through a capability is not one of the command's effects: map_effect never sees it *)
+  mkRO (map (fun e => if Nat.eqb (re_kind e) 3 then e else mkRE (re_tag e) (re_val e) (k :: re_maps e) (re_rid e) (re_kind e)) (ro_effs o)) (ro_evs o).
 Definition ro_map_ev k (o : routs) :=
   if Nat.eqb k 0 then o else mkRO (ro_effs o) (map (map_ev k) (ro_evs o)).
 
@@ -70,7 +72,12 @@ Fixpoint run_strand (fuel : nat) (s : rstrand) (nu n : nat) (acc : list rstrand)
     | TRace tg1 e1 tg2 e2 x k =>
         Some (Some (mkRS u en (RRace (SWait n) (SWait (S n)) x k) st), acc, nu, S (S n),
               ro_app o (mkRO [mkRE tg1 (eval en e1) [] n 1; mkRE tg2 (eval en e2) [] (S n) 1] []))
-    | TAbortT _ k | TAbortC _ k | TLegReq _ _ _ k | TBothL _ _ _ _ _ _ k => run_strand f (mkRS u en (RRun k) st) nu n acc o      (* outside the fragment *)
+    (* a request made through a legacy capability MEANS what a request made through the context means *)
+    | TLegReq tg e x k => Some (Some (mkRS u en (RReq n x k) st), acc, nu, S n, ro_app o (mkRO [mkRE tg (eval en e) [] n 3] []))
+    | TBothL tg1 e1 x1 tg2 e2 x2 k =>
+        Some (Some (mkRS u en (RBoth (SWait n) (SWait (S n)) x1 x2 k) st), acc, nu, S (S n),
+              ro_app o (mkRO [mkRE tg1 (eval en e1) [] n 3; mkRE tg2 (eval en e2) [] (S n) 1] []))
+    | TAbortT _ k | TAbortC _ k => run_strand f (mkRS u en (RRun k) st) nu n acc o      (* outside the fragment *)
     | TYield _ k => run_strand f (mkRS u en (RRun k) st) nu n acc o
     | THost _ _ _ _ _ k => run_strand f (mkRS u en (RRun k) st) nu n acc o (* never in source programs *)
     end
